@@ -143,6 +143,11 @@ func run(id, tier string) int {
 	if bad {
 		return 2
 	}
+	for i := range results {
+		for j := range results[i].Violations {
+			results[i].Violations[j].Scen = units[i].Name // the replay file must name the unit
+		}
+	}
 	return engine.Finish(p, tier, seed, results, root(), time.Since(t0).Seconds())
 }
 
@@ -217,8 +222,22 @@ func replay(file string) int {
 			continue
 		}
 		if u.Replay == nil {
-			fmt.Println("unit has no replay support")
-			return 2
+			// product / fault / schedule units: the replay file names the failing input, fault point
+			// or schedule; re-run the unit and show whether that violation is reproduced.
+			fmt.Printf("re-running unit %s / %s (%s); recorded violation: %s\n  recorded case: %v\n", rf.Property, rf.Unit, tier, rf.Signature, rf.Actions)
+			r := u.Run(time.Time{})
+			found := false
+			for _, v := range r.Violations {
+				mark := "  other"
+				if v.Sig() == rf.Signature {
+					mark, found = "  REPRODUCED", true
+				}
+				fmt.Printf("%s %s | %s | %v\n", mark, v.Sig(), v.Detail, v.Path)
+			}
+			if !found {
+				fmt.Println("  the recorded violation does not occur on the current tree")
+			}
+			return 0
 		}
 		fmt.Printf("replaying %s / %s (%s)\nexpected: %s\n", rf.Property, rf.Unit, tier, rf.Signature)
 		if err := u.Replay(rf.Actions, func(s string) { fmt.Println(s) }); err != nil {
